@@ -418,7 +418,7 @@ def alien_twins(exports):
             obs = W.deep(t, e["order"])
             flags = {}
             for label, x in (("self", t), ("copy", __import__("copy").copy(t))):
-                fresh = W.URL(SplitResult(*W.shallow(x)), encoded=True)
+                fresh = W.URL(SplitResult(*W.shallow_raw(x)), encoded=True)
                 flags[label + ".hash_like_fresh"] = hash(x) == hash(fresh)
                 flags[label + ".found_in_set"] = x in {fresh}
                 flags[label + ".eq_fresh"] = (x == fresh) is True
